@@ -353,8 +353,16 @@ def lazy_last_would_raise(prog, fl):
     return form == "object" and rc != 0 and (dec == "raise" or (fl[1] and dec != "ignore"))
 
 
-def judge(ctx, stream, prog, fl, src, real, obs):
+def judge(ctx, stream, prog, fl, src, real, obs, rerun=True):
     impl_m, spec_m, (collapsed, impl_c) = model(ctx, prog, fl)
+    if rerun and not isinstance(obs, str) and (obs[0], obs[1]) != (impl_m[0], impl_m[1]) and not (obs[1] is not None and obs[1][0] in ("syntax", "subshell")):
+        # anything the faithful model does not predict is first run again in a fresh worker: C05 is not about schedules, and a
+        # one-off observation (helper threads of an earlier case, XSH.lastcmd being process-global) belongs to C06 / C09
+        obs2 = run_impl_batch([(src, fl, real)])[0]
+        if obs2 != obs:
+            ctx.count("observation not reproduced on a re-run in a fresh worker (timing; C06/C09's subject)")
+            ctx.extra.setdefault("not_reproduced", []).append({"source": src, "flags": list(fl), "first": obs if isinstance(obs, str) else [obs[0], obs[1]]})
+            return judge(ctx, stream, prog, fl, src, real, obs2, rerun=False)
     case = {"stream": stream, "flags": {"XONSH_SUBPROC_RAISE_ERROR": fl[0], "XONSH_SUBPROC_CMD_RAISE_ERROR": fl[1]}, "source": src, "program": fmt(prog), "real_children": real}
     if obs == "hang":
         ctx.count("hang (the session wedged; judged by C09, not here)")
